@@ -224,6 +224,10 @@ def check_history(case, ctx: Ctx):
         if inv == "sub":
             other = h.copy() * 0 if False else Histogram1D(binning(), np.zeros(len(ps)))
             r = ctx.call("h - zeros", lambda: h - other)
+        elif inv == "sub_free":
+            other = ctx.call("h1(part)", physt.h1, np.array([float(edges[0])]), binning())
+            with config.enable_free_arithmetics():
+                r = ctx.call("h - h2 (free arithmetics)", lambda: h - other)
         elif inv == "array_add":
             with config.enable_free_arithmetics():
                 r = ctx.call("h + array", lambda: h + np.ones(len(ps)))
@@ -279,7 +283,7 @@ def histories(draw, tier="quick"):
         return st_
 
     stages = draw(st.lists(stage(), min_size=1, max_size=7 if tier == "thorough" else 5))
-    return {"pairs": ps, "stages": stages, "invalidate": draw(st.sampled_from([None, None, "sub", "array_add", "array_mul", "array_div", "bare", "slice"]))}
+    return {"pairs": ps, "stages": stages, "invalidate": draw(st.sampled_from([None, None, "sub", "sub_free", "array_add", "array_mul", "array_div", "bare", "slice"]))}
 
 
 FINDINGS = []
